@@ -90,7 +90,12 @@ pub fn gen_valid_ops(rng: &mut Rng, o: &GenOpts) -> Vec<Op> {
                 let size = gen_size(rng, o.max_piece).min(o.max_total.saturating_sub(total));
                 total += size;
                 let class = rng.below(5) as u8;
-                let src = rng.bytes(size, class);
+                let mut src = rng.bytes(size, class);
+                // a source may hold more than the announced size: only `size` bytes are the file
+                if rng.chance(1, 6) {
+                    let k = *rng.pick(&[1usize, 5, 4096, 70_000]);
+                    src.extend_from_slice(&rng.bytes(k.min(o.max_piece.max(8)), 3));
+                }
                 ops.push(Op::Add { name, size: size as u64, src });
                 next_id += 1;
             } else {
@@ -110,8 +115,9 @@ pub fn gen_valid_ops(rng: &mut Rng, o: &GenOpts) -> Vec<Op> {
                 let class = rng.below(5) as u8;
                 let mut src = rng.bytes(size, class);
                 // sometimes the source is longer than the announced size (only `size` bytes count)
-                if rng.chance(1, 10) {
-                    src.extend_from_slice(b"EXTRA");
+                if rng.chance(1, 6) {
+                    let k = *rng.pick(&[1usize, 5, 4096, 70_000]);
+                    src.extend_from_slice(&rng.bytes(k.min(o.max_piece.max(8)), 3));
                 }
                 ops.push(Op::Append { id: pending[i].0, size: size as u64, src });
             }
